@@ -265,3 +265,37 @@ func VerifC11ExtGuard(v *verifrt.T) {
 	v.Assert(len(e.notify.subs) == 0, "C11.guard.no-subscription-announced")
 	_ = sock
 }
+
+// VerifC11OddNames: "targets exactly the requested channel" for channel names that only look
+// like wildcards - a level that ends or starts with '#' or '+' is an ordinary name. A key
+// minted for such a channel authorises no sibling, no parent and nothing deeper.
+func VerifC11OddNames(v *verifrt.T) {
+	e := c11new(v)
+	master := security.Key(make([]byte, 24))
+	master.SetMaster(1)
+	master.SetContract(e.lic.User)
+	master.SetSignature(e.lic.Sign)
+	master.SetPermissions(security.AllowMaster)
+	mname := e.ciph.add(master)
+	names := []string{"a#/", "x/a#/", "#a/", "a+/", "x/+a/"}
+	channel := names[v.Choice(len(names), "name")]
+	conn, _ := hconn(e.svc, 0)
+	_, ok := c11request(v, e, conn, keygen.Request{Key: mname, Channel: channel, Type: "rw", TTL: 0})
+	v.Reach("odd-name-requested")
+	if !ok {
+		v.Assert(len(e.ciph.minted) == 0, "C11.odd.nothing-minted-on-refusal")
+		return
+	}
+	v.Assert(len(e.ciph.minted) == 1, "C11.odd.one-key")
+	k := e.ciph.minted[0]
+	for _, probe := range []string{"a/", "x/", "b/", "zz/", "x/b/", "a#/deeper/", "x/a#/deeper/", "a/deeper/"} {
+		if probe == channel {
+			continue
+		}
+		ch := security.ParseChannel([]byte("K/" + probe))
+		if ch.ChannelType == security.ChannelInvalid {
+			continue
+		}
+		v.Assert(!k.ValidateChannel(ch), "C11.odd.key-for-an-odd-name-authorises-nothing-else")
+	}
+}
